@@ -676,6 +676,11 @@ def _hostile(impl, o):
         'broadcast': lambda s: s.broadcast_to_common_suffix(s), 'kind-type': lambda s: (s.kind, s.type, s.num_children),
     }
     fails = []
+    if 'ASAN_OPTIONS' in os.environ:
+        # the sanitizer pass forks an instrumented interpreter per cell (slow): every third single-field state, all
+        # structural states, the methods that read node data / entries / counts
+        states = [st for i, st in enumerate(states) if i % 3 == 0 or not st[0].startswith('record ')]
+        methods = {k: methods[k] for k in ('repr', 'hash', 'paths', 'accessors', 'entries', 'unflatten', 'walk', 'pickle', 'is_prefix')}
     for label, st in states:
         for mname, m in methods.items():
             pid = os.fork()
